@@ -383,7 +383,7 @@ class Builder:
             text = rng.choice([f"{y:04d} {m:02d} {d:02d}", f"{y:4d} {m:2d} {d:2d}", f"{y}  {m}  {d}"])[:n]
             return text, text
         if g == "seconds_of_day":
-            ms = rng.choice([0, 86399999, rng.randint(0, 86399999)])
+            ms = rng.choice([0, 86399999, rng.randint(0, 86399999), rng.randint(0, 86399999), 86400000, 86400750])  # the last two: a stamp inside a leap second
             digits = rng.randint(3, 6)
             text = f"{ms / 1000:.{digits}f}"
             return text, float(text)
@@ -437,7 +437,7 @@ class Image:
 
 def build_image(layouts, required, rng, level, pol, scan, n_lines, n_pixels, product_id, blank_prob=0.0,
                 header_overrides=None, line_overrides=None, same_time=None, decl_lines=None,
-                scene=SCENE):
+                scene=SCENE, vary_constants=False):
     c8 = level == "1.1"
     type_code = "C*8" if c8 else "IU2"
     bpp = 8 if c8 else 2
@@ -472,8 +472,11 @@ def build_image(layouts, required, rng, level, pol, scan, n_lines, n_pixels, pro
     enum_consts = {}
     for i in range(n_lines):
         lo = {"preamble.record_type": rec_type, "preamble.record_length": L}
-        lo.update(const)
-        lo.update(enum_consts)
+        if not (vary_constants and i > 0):
+            # `vary_constants`: the "per-file constant" columns (update flags, scan id, codes ...) differ on later lines, as update
+            # flags raised on the first line only do in real files; the documented attribute is the value of the FIRST line
+            lo.update(const)
+            lo.update(enum_consts)
         if same_time is not None:
             lo["sensor_acquisition_date"] = same_time[:3]
             lo["sensor_acquisition_date_microseconds"] = same_time[3]
@@ -585,7 +588,7 @@ def build_product(cfg, layouts=None, required=None):
             build_image(layouts, required, rng, level, pol, scan, nl, npx, product_id, blank_prob=blank_prob,
                         header_overrides=io.get("header"), line_overrides=io.get("lines"),
                         same_time=(same[0], same[1], same[2], same[2] * 1000) if same else None,
-                        decl_lines=io.get("decl_lines"), scene=scene)
+                        decl_lines=io.get("decl_lines"), scene=scene, vary_constants=bool(cfg.get("vary_line_constants")))
         )
 
     # ---- leader
